@@ -110,6 +110,17 @@ type Case struct {
 	Before []FileJ `json:"before"` // may or may not contain the target
 	Data   []byte  `json:"data"`   // raw: the bytes; pb: the payload
 	Faults []Fault `json:"faults"`
+	// Prior, if set, is an EARLIER write to the same target that is run first
+	// (with its own injected faults, typically a SIGKILL after its write and
+	// before its rename); whatever it leaves behind is part of the directory
+	// the write under test starts from.
+	Prior *PriorWrite `json:"prior,omitempty"`
+}
+
+// PriorWrite is an interrupted earlier write (see Case.Prior).
+type PriorWrite struct {
+	Data   []byte  `json:"data"`
+	Faults []Fault `json:"faults"`
 }
 
 const traceSet = "openat,open,creat,write,pwrite64,writev,close,fchmodat,fchmod,chmod,renameat,renameat2,rename,unlinkat,unlink,rmdir,link,linkat,symlinkat,mkdirat,truncate,ftruncate,exit_group"
@@ -358,11 +369,35 @@ func runOnce(c Case, bl *baseline) (out outcome) {
 			panic(err)
 		}
 	}
-	before := readDir(dir)
 	perm := c.Perm
 	if c.Mode == "pb" {
 		perm = 0o600
 	}
+	straceOpts := func(faults []Fault) []string {
+		opts := []string{"-e", "trace=" + traceSet}
+		for _, f := range faults {
+			n := f.Nth
+			if bl != nil {
+				n += bl.before[f.Sys]
+			}
+			if f.Kind == "kill" {
+				opts = append(opts, "-e", fmt.Sprintf("inject=%s:signal=SIGKILL:when=%d", f.Sys, n))
+			} else {
+				opts = append(opts, "-e", fmt.Sprintf("inject=%s:error=%s:when=%d", f.Sys, f.Kind, n))
+			}
+		}
+		return opts
+	}
+	if c.Prior != nil {
+		// the interrupted earlier write, by the same real code
+		argv := []string{selfExe, "-child", c.Mode, filepath.Join(dir, c.Target),
+			strconv.FormatInt(int64(perm), 8), hex.EncodeToString(c.Prior.Data)}
+		if _, err := stracelog.Run(filepath.Join(root, "log0"), straceOpts(c.Prior.Faults), argv, os.Environ()); err != nil {
+			panic(err)
+		}
+		out.tags = append(out.tags, "prior-write")
+	}
+	before := readDir(dir)
 
 	opts := []string{"-e", "trace=" + traceSet}
 	for _, f := range c.Faults {
@@ -616,6 +651,45 @@ func main() {
 				configs = append(configs, c)
 			}
 		}
+		// leftovers of earlier writes must never influence a write: stale files
+		// under every plausible temporary name (also names DERIVED from the
+		// target), longer than the new data; and two-step scenarios where the
+		// real code's own earlier write was killed after its write and before
+		// its rename
+		pfx := filesystem.TemporaryNamePrefix
+		long := func() []byte { return append(rb(40), []byte("-STALE-TAIL-STALE-TAIL-STALE-TAIL")...) }
+		leftovers := func(target string) []FileJ {
+			return []FileJ{
+				{Name: pfx + "atomic-write-" + target, Perm: 0o600, Data: long()},
+				{Name: pfx + "atomic-write" + target, Perm: 0o600, Data: long()},
+				{Name: pfx + "atomic-write", Perm: 0o600, Data: long()},
+				{Name: pfx + target, Perm: 0o644, Data: long()},
+				{Name: pfx + "atomic-write." + target + ".tmp", Perm: 0o600, Data: long()},
+				{Name: pfx + "atomic-write0", Perm: 0o600, Data: long()},
+			}
+		}
+		killAfterWrite := []Fault{{Sys: "close", Kind: "kill", Nth: 1}}
+		extra := []Case{
+			{Mode: "raw", Perm: 0o600, Target: "session", Before: append([]FileJ{{Name: "session", Perm: 0o600, Data: rb(20)}}, leftovers("session")...), Data: rb(7)},
+			{Mode: "pb", Target: "archive", Before: leftovers("archive"), Data: rb(4)},
+			{Mode: "raw", Perm: 0o644, Target: "t", Before: append([]FileJ{{Name: "t", Perm: 0o644, Data: rb(9)}}, leftovers("t")...), Data: nil},
+			{Mode: "raw", Perm: 0o600, Target: "session", Before: []FileJ{{Name: "session", Perm: 0o600, Data: rb(20)}}, Data: rb(6),
+				Prior: &PriorWrite{Data: long(), Faults: killAfterWrite}},
+			{Mode: "raw", Perm: 0o600, Target: "fresh", Data: rb(3),
+				Prior: &PriorWrite{Data: long(), Faults: []Fault{{Sys: "renameat", Kind: "kill", Nth: 1}}}},
+			{Mode: "pb", Target: "cache", Before: []FileJ{{Name: "cache", Perm: 0o600, Data: rb(30)}}, Data: rb(2),
+				Prior: &PriorWrite{Data: long(), Faults: []Fault{{Sys: "fchmodat", Kind: "kill", Nth: 1}}}},
+			{Mode: "raw", Perm: 0o600, Target: "session", Data: rb(5),
+				Prior: &PriorWrite{Data: long(), Faults: []Fault{{Sys: "write", Kind: "kill", Nth: 1}}}},
+		}
+		extraPlans := [][]Fault{nil, {{Sys: "renameat", Kind: "kill", Nth: 1}}, {{Sys: "fchmodat", Kind: "EIO", Nth: 1}}, {{Sys: "exit_group", Kind: "kill", Nth: 1}}}
+		for _, base := range extra {
+			for _, p := range extraPlans {
+				c := base
+				c.Faults = p
+				push(c, "exhaustive")
+			}
+		}
 		plans := faultPlans()
 		for _, base := range configs {
 			for _, p := range plans {
@@ -624,7 +698,7 @@ func main() {
 				push(c, "exhaustive")
 			}
 		}
-		w.Extra["exhaustive_scope"] = fmt.Sprintf("%d configurations (old content absent/present, raw and protobuf, empty and large data, stale temporaries, bystanders) x %d fault plans: a kill before each of create/write/close/chmod/rename and after the rename, an error at each of them (EIO, EACCES, EEXIST, ENOSPC, EPERM, EXDEV), and every error followed by a failing or dying unlink/rmdir/close of the clean-up path", len(configs), len(plans))
+		w.Extra["exhaustive_scope"] = fmt.Sprintf("%d configurations (old content absent/present, raw and protobuf, empty and large data, stale temporaries, bystanders) x %d fault plans: a kill before each of create/write/close/chmod/rename and after the rename, an error at each of them (EIO, EACCES, EEXIST, ENOSPC, EPERM, EXDEV), and every error followed by a failing or dying unlink/rmdir/close of the clean-up path; plus %d leftover configurations (stale files under every plausible temporary name, also names derived from the target, longer than the new data; two-step runs where the real code's earlier write of longer data was killed after its write and before its rename) x %d plans", len(configs), len(plans), len(extra), len(extraPlans))
 
 		// random configurations with random fault sets
 		nRandom := 30
@@ -641,7 +715,10 @@ func main() {
 			if r.Intn(2) == 0 {
 				c.Before = append(c.Before, other)
 			}
-			for j, nf := 0, 1+r.Intn(3); j < nf; j++ {
+			if r.Intn(4) == 0 {
+				c.Prior = &PriorWrite{Data: rb(40 + r.Intn(80)), Faults: []Fault{{Sys: []string{"close", "fchmodat", "renameat"}[r.Intn(3)], Kind: "kill", Nth: 1}}}
+			}
+			for j, nf := 0, r.Intn(3); j < nf; j++ {
 				f := Fault{Sys: syscalls[r.Intn(len(syscalls))], Nth: 1 + r.Intn(2)}
 				if f.Sys == "write" {
 					f.Nth = 1 // the second write would be the child's message on stderr
